@@ -69,6 +69,11 @@ CLAIMED = {
     level="Exactness for constant rates is the polynomial/trigonometric identity 'update == q (x) exp(w dt/2)' in the code's own formula, decided exactly (same half angle, per-call dt, matrix not element-wise powers); the stated order of the series method follows from its terms being the exponential's partial sums. Error constants are not computed.",
     note="Real arithmetic; unit quaternions as symbols with the declared relation w^2 = 1 - x^2 - y^2 - z^2; Quaternion.ode is accepted in either frame convention (undocumented).",
     ref="DESIGN.md §2 C08"),
+ "C12": dict(
+    technique="AVN twin comparison of the two slerp copies on all four arms, AVN identities on the SLERP/LERP arms (unit norm, constant angular speed, end points, sign-flip invariance), integer AVN on the extracted slice/neighbour/weight-count expressions of slerp_nan, value-numbered state ordering, twin value numbering of remove_jumps/q_correct",
+    level="The geodesic properties of SLERP are trigonometric identities in the code's own weights and are decided exactly for all unit endpoints and weights, per branch; gap filling is index arithmetic decided over symbolic interval bounds. Rounding at the LERP/SLERP switch is not decided.",
+    note="Unit endpoints as symbols with declared unit relations; arccos atoms with cos(arccos d) = d, sin(arccos d) = sqrt(1-d^2).",
+    ref="DESIGN.md §2 C12"),
 }
 
 NOT_YET = "check not built yet in this session (work in progress; see DESIGN.md §2 for the planned static rules)"
